@@ -444,6 +444,7 @@ func (p *DevUpgradeImageAnsPayload) UnmarshalBinary(data []byte) error {
 
 	p.Status.UpImageStatus = UpImageStatus(data[0] & 0x3)
 
+	p.nextFirmwareVersion = nil
 	if p.Status.IsFirmwareImageValid() {
 		if len(data) < p.Size() {
 			return fmt.Errorf("lorawan/applayer/firmwaremanagement: %d bytes are expected", p.Size())
